@@ -58,6 +58,17 @@ def Rule.kidsOKL (ck : Kind) : List Rule → Bool
 end
 
 mutual
+/-- the same for the description of a rule object the caller builds (a caller cannot put a rule of a refused kind
+into a detached @media / @page either, but the listed findings let some kinds through: the theorems ask the candidate
+to be well nested) -/
+def Spec.kidsOK : Spec → Bool
+  | ⟨k, _, _, _, _, kids⟩ => Spec.kidsOKL k kids
+def Spec.kidsOKL (ck : Kind) : List Spec → Bool
+  | [] => true
+  | s :: ss => allowedIn ck s.kind && s.kidsOK && Spec.kidsOKL ck ss
+end
+
+mutual
 /-- back pointers mirror containment: this rule has `_parentRule = parent`, `_parentStyleSheet is sheet = pss`, and
 every rule below it names its container and no sheet -/
 def Rule.linksOK (parent : Option Nat) (pss : Bool) : Rule → Bool
@@ -102,6 +113,56 @@ def OrderRegion (st : St) : Op → Prop
 
 instance (st : St) (op : Op) : Decidable (OrderRegion st op) := by
   cases op <;> unfold OrderRegion <;> exact inferInstance
+
+/-- C09-add-charset-adopts: ordered add of an @charset rule OBJECT onto a sheet that starts with @charset — the encoding
+is copied, the object is not kept, but it is given the sheet as parent -/
+def AdoptRegion (st : St) : Op → Prop
+  | .add s v => v = false ∧ s.kind = .charset ∧ firstIs [.charset] (kindsOf st.rules) = true
+  | .insertOrdered s i v =>
+      v = false ∧ s.kind = .charset ∧ firstIs [.charset] (kindsOf st.rules) = true ∧
+        (idxOf (some i) st.rules.length).isSome = true
+  | _ => False
+
+/-- C09-clean-refused-halfway: an insert of a @namespace rule (also through `namespaces[p] = u` with a new prefix)
+raises NoModificationAllowedErr — only the `deleteRule` inside `_cleanNamespaces` can do that — after the new rule
+was put into the list and before it was given its parent -/
+def CleanRegion (st : St) : Op → Prop
+  | .insert s i v => (step st (.insert s i v)).2 = .err .noMod
+  | .add s v => (step st (.add s v)).2 = .err .noMod
+  | .insertOrdered s i v => (step st (.insertOrdered s i v)).2 = .err .noMod
+  | .nsSet p u => findNsIdx p st.rules = none ∧ (step st (.nsSet p u)).2 = .err .noMod
+  | _ => False
+
+/-- C09-media-accepts-variables, C09-page-accepts-nonmargin: `container.insertRule` lets a kind through that the
+container cannot hold -/
+def NestedRegion (st : St) : Op → Prop
+  | .nInsert path s _ _ => match atPath st.rules path with
+    | some c => containerRejects c.kind s.kind = false ∧ allowedIn c.kind s.kind = false
+    | none => False
+  | _ => False
+
+/-- C09-text-replace-keeps-parent: an accepted `cssText = …` on a sheet / container that held rules: the replaced
+rule objects keep their parent pointers -/
+def ReplaceRegion (st : St) : Op → Prop
+  | .setText specs => st.rules ≠ [] ∧
+      (parseTop st.raising { acc := [], nd := [], level := 0, next := st.next } specs).isOk = true
+  | .nSetText path kids => match atPath st.rules path with
+    | some c => isContainer c = true ∧ c.kids ≠ [] ∧
+        (cSetText st.raising (nsDict st.rules) st.next c kids).2.2.2 = .none
+    | none => False
+  | _ => False
+
+/-- all regions of listed known findings about the state (not about the returned index) -/
+def Region (st : St) (op : Op) : Prop :=
+  OrderRegion st op ∨ AdoptRegion st op ∨ CleanRegion st op ∨ NestedRegion st op ∨ ReplaceRegion st op
+
+/-- rule objects handed in by the caller are well nested (texts are parsed, which guarantees it) -/
+def OpOK : Op → Prop
+  | .insert s _ v => v = true ∨ s.kidsOK = true
+  | .add s v => v = true ∨ s.kidsOK = true
+  | .insertOrdered s _ v => v = true ∨ s.kidsOK = true
+  | .nInsert _ s _ v => v = true ∨ s.kidsOK = true
+  | _ => True
 
 structure Valid (st : St) : Prop where
   top : TopOK st.rules
